@@ -122,6 +122,7 @@ fn worker_dispatch(engine: &str) -> Box<dyn Fn(&Value) -> Value> {
         "c14_inproc" => Box::new(c14::inproc_cell),
         "c14_bin" => Box::new(c14::binary_cell),
         "c14_pair" => Box::new(c14::pair_cell),
+        "c14_relay" => Box::new(c14::relay_cell),
         "c16_wire" => Box::new(c16::wire_cell),
         "c16_cfg" => Box::new(c16::config_cell),
         "c07_e2" => Box::new(c07_e2::cell),
@@ -202,6 +203,7 @@ fn replay(path: &str) -> i32 {
         "modea" => e1_checks::replay(r),
         "modeb" => e1b_checks::replay(r),
         "c14" | "c14_bin" | "c14_pair" => c14::replay(r),
+        "c14_relay" => format!("{}", c14::relay_cell(&r["spec"])["violations"]),
         "c07_e2" => c07_e2::replay(r),
         "c13_two" => c13::replay_two(r),
         "c13_e2" => c13::replay_e2(r),
